@@ -14,6 +14,7 @@ de_any_consumes_one_item de_any_on_ser roundtrip_skipped_fields""".split()] + \
            ["Minicbor.NarrowThm.narrow_widen", "Minicbor.NarrowThm.narrow_widen_fields", "Minicbor.NarrowThm.rneShift_exact",
             "Minicbor.NarrowThm.narrow_rne", "Minicbor.NarrowThm.f64ToF32_lt"]
 PACKAGES = ["hserde", "hcore"]
+DEBUG_TWINS = True
 RULE = ("rt <type> <value>: ~100 serde types (std + derived: every Serializer/Deserializer method, externally / internally / adjacently tagged, "
         "untagged, flatten, bytes newtype, unknown-length seq/map, fields skipped at run time by skip_serializing_if in structs and struct variants, "
         "alone and inside Vec / tuple / struct) x type-directed values (integers dense at width edges 2^k±3, containers of "
